@@ -344,6 +344,7 @@ func runLife(cfg *config) error {
 		// calls that are allowed (3 of 4), the rest is arbitrary
 		active := [2]bool{}
 		att := [2][2]bool{}
+		was := [2][2]bool{} // the slot's instance for this document was attached at some point
 		for j := 0; j < n; j++ {
 			if r.Chance(1, 4) {
 				s = append(s, lifeAlphabet[r.Intn(len(lifeAlphabet))])
@@ -353,7 +354,12 @@ func runLife(cfg *config) error {
 				case !active[c]:
 					s = append(s, lcall{"act", c, 0})
 				case !att[c][d]:
-					s = append(s, lcall{"att", c, d})
+					if was[c][d] && r.Chance(1, 3) {
+						// attach again with the instance that was attached before (to be refused)
+						s = append(s, lcall{"atts", c, d})
+					} else {
+						s = append(s, lcall{"att", c, d})
+					}
 				default:
 					s = append(s, lcall{[]string{"pp", "pp", "det", "rem", "deact", "att", "atts", "attf", "rem0", "det0"}[r.Intn(10)], c, d})
 				}
@@ -369,6 +375,7 @@ func runLife(cfg *config) error {
 			case "att", "atts":
 				if active[last.c] {
 					att[last.c][last.d] = true
+					was[last.c][last.d] = true
 				}
 			case "det", "rem", "det0", "rem0":
 				att[last.c][last.d] = false
